@@ -363,6 +363,8 @@ def run_task(prop: Any, task: Dict[str, Any]) -> Dict[str, Any]:
         shipped_digests = None
         try:
             shipped_digests = shipped_check(stats, task["seed"], reverse=cfg["id"].endswith("_rev"))
+            if not cfg["id"].endswith("_rev"):
+                user_registration_check(stats)
             stats.runs += 1
             digests += [1, 2]
             nontrivial += [True, True]
@@ -423,6 +425,59 @@ def run_task(prop: Any, task: Dict[str, Any]) -> Dict[str, Any]:
     }
 
 
+def user_registration_check(stats: Stats) -> None:
+    """A user registers real environment classes with keyword arguments that hold objects (generators). make(id, **override)
+    must leave what later make(id) calls build - and what earlier ones built - untouched: the registered arguments are
+    overridden for that one call only (neither the registry entry nor the objects it holds may be written to)."""
+    import jax
+    import jumanji
+    from jumanji import registration as R
+    from jumanji.environments import MMST, RubiksCube
+    from jumanji.environments.logic.rubiks_cube.generator import ScramblingGenerator
+    from jumanji.environments.routing.mmst.generator import SplitRandomGenerator
+
+    def trace(env: Any) -> List[str]:
+        s, ts = jax.jit(env.reset)(jax.random.PRNGKey(11))
+        out = [util.tree_digest(util.to_np((s, ts)))]
+        step = jax.jit(env.step)
+        for _ in range(4):
+            s, ts = step(s, env.action_spec.generate_value())
+            out.append(util.tree_digest(util.to_np((s, ts))))
+        return out
+
+    cases = [
+        ("JsimUserMMST-v0", "jumanji.environments:MMST", MMST,
+         lambda: {"generator": SplitRandomGenerator(num_nodes=12, num_edges=18, max_degree=4, num_agents=2, num_nodes_per_agent=3, max_step=12),
+                  "time_limit": 12}, {"time_limit": 6}),
+        ("JsimUserCube-v0", "jumanji.environments:RubiksCube", RubiksCube,
+         lambda: {"generator": ScramblingGenerator(cube_size=2, num_scrambles_on_reset=5), "time_limit": 9}, {"time_limit": 3}),
+    ]
+    saved = dict(R._REGISTRY)
+    try:
+        for id_, ep, cls, mk, override in cases:
+            R.register(id=id_, entry_point=ep, kwargs=mk())
+            ref = trace(cls(**mk()))            # constructed directly from an equal, fresh set of arguments
+            a = jumanji.make(id_)
+            if trace(a) != ref:
+                raise Violation("C18", "registry", "user_registration", "make_differs_from_registered_arguments", f"make({id_!r}) behaves differently from {cls.__name__}(**registered kwargs)")
+            b = jumanji.make(id_, **override)
+            trace(b)
+            if trace(a) != ref:  # (asked before another plain make could repair the damage)
+                raise Violation("C18", "registry", "user_registration", "make_with_override_changed_an_earlier_environment",
+                                f"the environment made from {id_!r} before make({id_!r}, **{override}) changed its behaviour afterwards")
+            c = jumanji.make(id_)
+            if trace(c) != ref:
+                raise Violation("C18", "registry", "user_registration", "make_with_override_changed_what_the_id_builds",
+                                f"after make({id_!r}, **{override}) a plain make({id_!r}) no longer behaves like {cls.__name__}(**registered kwargs)")
+            if trace(a) != ref:
+                raise Violation("C18", "registry", "user_registration", "make_with_override_changed_an_earlier_environment",
+                                f"the environment made from {id_!r} before make({id_!r}, **{override}) changed its behaviour afterwards")
+            stats.check("user_registrations_with_object_kwargs")
+    finally:
+        R._REGISTRY.clear()
+        R._REGISTRY.update(saved)
+
+
 def order_compare(results: List[Dict[str, Any]], seed: int) -> List[Dict[str, Any]]:
     """Engine-side history check: what make(id) builds must not depend on which shipped ids were made earlier in the process
     (the 'shipped' task makes them in ascending, the 'shipped_rev' task - another process - in descending order)."""
@@ -470,6 +525,8 @@ def replay(v: Dict[str, Any], path: str) -> int:
     try:
         if v["config"]["id"].startswith("shipped"):
             shipped_check(Stats(), v["seed"], reverse=v["config"]["id"].endswith("_rev"))
+            if not v["config"]["id"].endswith("_rev"):
+                user_registration_check(Stats())
         else:
             execute(v["ops"], Stats())
     except Violation as got:
